@@ -37,6 +37,9 @@ def _decide_table(ctx, m: ScanModel, loop, expected: Val, rule, label, fi, const
     documented value"""
     stores = m.stores(loop)
     if not stores:
+        if m.result_stores_outside_loops():
+            return ctx.unknown(rule, label, 'the result for these queries is not written in this loop but by a slice / vectorised store outside the loops: '
+                                            'not a shape the table is read from', fi.loc(), fi.qualname, construct)
         return ctx.fail(rule, label, 'no result is stored for the query in this loop', fi.loc(), fi.qualname, construct)
     u = Universe()
     u.collect(expected)
@@ -91,6 +94,32 @@ def _sentinel_tests(vals) -> List[str]:
     return out
 
 
+def _element_truthiness(conds, ev) -> set:
+    """truthiness tests whose operand is an element / query value: the result of next(...), or a loop-carried name that held one before its loop"""
+    out = set()
+    pre_of = {}
+    for l in ev.loop_log:
+        for nm in l.get('names', ()):
+            v = l['pre'].env.get(nm) if hasattr(l.get('pre'), 'env') else None
+            pre_of[(l['lid'], nm)] = v
+
+    def is_element(v) -> bool:
+        if isinstance(v, Num):
+            v = _single(v) or v
+        if isinstance(v, Term) and v.head == 'lib:next':
+            return True
+        if isinstance(v, Term) and v.head == 'loopvar':
+            return is_element(pre_of.get((v.uid, v.args[0].v)))
+        if isinstance(v, Num) and v.length is None:
+            return any(sym.ATOMS.head(a) == 'el' for a in sym.all_atoms(v.r))
+        return False
+    for c in conds:
+        for t in walk_vals(c):
+            if isinstance(t, P) and t.op == 'truthy' and is_element(t.args[0]):
+                out.add(str(t))
+    return out
+
+
 def check_scans(ctx, kinds=('lower', 'higher', 'closest'), fill_true_only=False, prove=False):
     ctx.rule('C10.3', 'strictness / tie / fill table of the two-pointer scans, decided on the evaluated loops (not their text): lower - prefix <, advance <=, result '
                       'x_idx, invalid prefix value 0 / -1 by fill_not_valid; higher - prefix <=, advance <, result x_idx+1, or x_idx / len(x) when x is exhausted; '
@@ -105,6 +134,11 @@ def check_scans(ctx, kinds=('lower', 'higher', 'closest'), fill_true_only=False,
         fi = ctx.prog.func(qn)
         try:
             m = ScanModel(ctx.prog, fi, opaque_kind=REPO_RESULT_KIND)
+            lids_ = {m.prefix['lid'], m.main['lid'], m.adv['lid']}
+            others = sorted({ast.unparse(e.data['target_expr']) for e in m.foreign_stores() if e.kind == 'store' and any(l.lid in lids_ for l in e.loops)
+                             and e.data.get('target_expr') is not None})
+            if others:
+                raise Unrecognised(f"{fi.name}: the scan loops fill more than one array ({others[:3]}): the result is assembled from them afterwards")
         except Unrecognised as ex:
             why = check_closed_form(ctx, kind, fi, fill_true_only)
             if why is None:
@@ -119,7 +153,7 @@ def check_scans(ctx, kinds=('lower', 'higher', 'closest'), fill_true_only=False,
                     gargs[ps_[2]] = Term('param', (Const(ps_[2]),))
                 gev.run_function(fi, args=gargs)
                 conds = [l['cond'] for l in gev.loop_log] + [g for e in gev.events for g in e.guard]
-                truthy = sorted({t for t in _sentinel_tests(conds) if any(h in t for h in ('lib:next', 'loopvar', 'builtins.next', 'next('))})
+                truthy = sorted(_element_truthiness(conds, gev))
                 if truthy:
                     ctx.fail('C10.3', f"{kind}: the None sentinel is tested by identity, not by truthiness (an element equal to 0 is a legitimate value)",
                              f"{truthy[:3]}", fi.loc(), fi.qualname, f"{kind}:sentinel")
@@ -286,15 +320,17 @@ def check_closed_form(ctx, kind: str, fi, fill_true_only=False) -> Optional[str]
             return ev.issues[0]
         if not (isinstance(res, Num) and res.length is not None):
             return f"result is not an element-wise array value: {show(res, 160)}"
+        if any(sym.ATOMS.head(a_) not in ('sym',) for a_ in sym.all_atoms(res.length)):
+            return f"the extent of the result is not derivable: {sym.show(res.length)[:120]}"
         forms[fill] = (res, ev)
     label = f"{kind} (vectorised implementation)"
     ctx.rule('C10.5', 'a vectorised implementation of a search (counting / binary search instead of the scan) is decided on its element-wise closed form: on every '
-                      'sorted x of 1..4 elements over a lattice (equal elements included) and every query over a wider lattice (below, equal to, between - '
+                      'strictly increasing x of 1..4 elements over a lattice (the precondition of the property) and every query over a wider lattice (below, equal to, between - '
                       'mid-points included - and above the elements) the form evaluates to the documented index; every element read it makes is in range; '
                       'the index does not change when all values are mapped by v -> 3v + 7')
     for fill, (res, ev) in forms.items():
         ctx.check(res.length == Lq, 'C10.2', f"{label}: one result slot per query", f"extent {sym.show(res.length)[:80]}", fi.loc(), fi.qualname, f"{kind}:alloc:{fill}")
-        bad, n_cases, undecided = decide_form(kind, fill, res, [e for e in ev.events if e.kind == 'gather'], lens)
+        bad, n_cases, undecided = decide_form(kind, fill, res, [e for e in ev.events if e.kind == 'gather'], lens, strict_x=True)
         if undecided is not None:
             ctx.unknown('C10.5', f"{label}, fill_not_valid={fill}", f"the closed form mentions a construct the finite-model evaluation does not interpret: {undecided}\n"
                                                                     f"form: {show(res, 300)}", fi.loc(), fi.qualname, f"{kind}:closed:{fill}")
@@ -449,14 +485,9 @@ def _dispatch_branches(ctx, fi, lit: str, target: str, fwd: bool) -> Optional[bo
                 continue
             if not (isinstance(val, Num) and val.length is not None and val.length == Lq):
                 return None
-            bad, n_cases, undecided = decide_form(kind, fill, val, gathers, lens)
+            bad, n_cases, undecided = decide_form(kind, fill, val, gathers, lens, strict_x=True)
             if undecided is not None:
                 return None
-            if bad is not None and pth:
-                # the path condition is not modelled; it may well demand a strictly increasing x: only a counterexample without equal elements counts
-                bad, n_cases, undecided = decide_form(kind, fill, val, gathers, lens, strict_x=True)
-                if bad is None:
-                    return None
             ctx.check(bad is None, 'C10.5', f"'{lit}' fast path of the dispatcher (taken when {' and '.join(str(p_)[:60] for p_ in pth)[:200]}), fill_not_valid={fill}: "
                                             f"documented index on every order type ({n_cases} cases)", f"{bad}\nform: {show(val, 300)}", fi.loc(), fi.qualname, f"fast:{lit}:{fill}")
             if bad is not None:
@@ -592,6 +623,10 @@ def prove_scan(ctx, m: ScanModel, kind: str, fi):
     survives the step to the next (not smaller) query."""
     Pf, Mn, Ad = m.prefix, m.main, m.adv
     rule = 'C10.4'
+    if m.result_stores_outside_loops():
+        ctx.unknown(rule, f"{kind}: inductive argument", 'part of the result is written by slice / vectorised stores outside the three loops: the verification conditions are '
+                                                         'phrased for per-query stores', fi.loc(), fi.qualname, f"{kind}:proof")
+        return
     strict_inv = kind != 'lower'
     R = range(-3, 4)            # the lattice straddles 0: an element or a query equal to 0 is an ordinary value
     BIGP = 40
